@@ -5,6 +5,11 @@ ROOT = os.path.dirname(os.path.dirname(os.path.abspath(__file__)))
 BASE_OFF = "cd /repo && env -u BUIDL_VERIF_TRACE /venv/bin/python -m pytest -ra -q -p no:cacheprovider --timeout=900 --continue-on-collection-errors"
 
 CLAIMED = {
+ "C12": dict(
+   text="TLC grows every labelled binary tree shape up to a bound (Split action) with free-constructor hashes and checks for every leaf that the merkle path recomputes the tree hash, control blocks round-trip, mirroring subtrees keeps the root and any alteration of leaf script, leaf version, a path hash or the path length changes it. For real trees of 1..8 leaves (mixed leaf versions, duplicate scripts, internal keys of both parities) TLC recomputes the tree hash and every leaf's control block from the certified tagged-hash rows the library actually computed, checks the tweak algebra in the discrete-log representation (tweaked private key = dlog of the output key, parity) with certificates, and decides single-byte alterations of control blocks and leaf scripts.",
+   design="3/C12",
+   note="Trusted: TLC, TapTree.tla (BIP341), hashlib tagged hashes, the library's scalar multiplication for q*G (C03). Shapes above the exhaustive bound, keys and scripts are sampled.",
+   technique="TLA+ tree/commitment specification: TLC model checking over all shapes + TLC validation of recorded real trees from certified hash rows"),
  "C08": dict(
    text="On a toy prime-order group with a toy HMAC defined in the specification, TLC explores the BIP32 wallet tree as a state machine deriving the private and the public chain in lockstep (public/private consistency in every state, paths to depth 3 over the boundary indexes 0, 1, 2^31-1 and their hardened versions) and exports the complete CKDpriv/CKDpub tables, replayed through HDPrivateKey.child / HDPublicKey.child running on the toy group. On secp256k1 master keys, child steps (HMAC input layout via certified rows, k' = I_L + k mod n with certificates, chain code, fingerprint, depth, child number), all 20 version prefixes through serialise/parse (78-byte layout + Base58Check), path traversals in both notations and cases against step-by-step derivation and the reference path grammar, refusal of hardened public derivation, and xpub blinding are decided by TLC.",
    design="3/C08",
